@@ -72,7 +72,7 @@ def describe(tier):
             "list(tree), string_summary(tree), json.loads(tree_to_json(tree)); families " + ",".join(SL_DEPTH_FAMILIES) + " additionally at every depth "
             f"limit {DEPTHS_ALL} with L-1. Decoder-level (DL) families call the named decoder/helper functions directly (deeper L). Structured "
             "generators: PE header fields x EVERY truncation length x 3 embedding offsets; chr/chrw/chrb of every number 0..99999 with 0-2 leading "
-            "zeros; xor keys 0..999 in 4 spellings on base64/hex/byte-array forms; 501/502-element byte arrays with each malformed element in "
+            "zeros; EVERY dotted quad over 16 octet spellings (decimal, zero-padded with and without the digits 8/9, octal / hex boundaries, junk) bare in text and as URL host; xor keys 0..999 in 4 spellings on base64/hex/byte-array forms; 501/502-element byte arrays with each malformed element in "
             "first/middle/last position; boundary ladder (2..1025 repetitions / 16 kB, thorough ..70000 / 64 kB: powers of two +-1 and round numbers) of repetitions of every family token and of leading zeros in every numeric spelling; full shipped registry (5316 keywords) on all <=2-token strings of the `mix` family and one witness per "
             "family. Oracle: nothing raises (any exception type), the 5 s no-progress watchdog does not fire (30 s for PE/byte-array cases), the result is a "
             "Node carrying the input. states = distinct byte strings evaluated, transitions = token extensions (evaluations), traces = scans/calls "
@@ -105,6 +105,8 @@ def plan(tier, seed):
             units.append(("dl", name, tier, u[2]))
     for i in range(16):
         units.append(("chr", i, 16))
+    for i in range(len(QUAD_OCTETS)):
+        units.append(("quad", i))
     for form in range(len(XOR_FORMS)):
         units.append(("xor", form))
     for i in range(len(_pe_field_grid(tier))):
@@ -237,6 +239,19 @@ def run_unit(unit, rec):
                 rec.mark("nontrivial", (name, s), unique)
         if last is not None:
             rec.sample({"family": name, "level": "decoder", "targets": targets, "data": last})
+    elif kind == "quad":
+        # every dotted quad over an octet menu (decimal, zero-padded with and without the digits 8/9, octal and hex boundaries, junk), bare in
+        # text and as a URL host: the validator and the parser must never disagree in a way that lets an exception escape
+        import itertools as _it
+        first = QUAD_OCTETS[unit[1]]
+        scanner = md()
+        data = b""
+        for rest in _it.product(QUAD_OCTETS, repeat=3):
+            quad = b".".join((first,) + rest)
+            for data in (b"ip " + quad + b" x", b"http://" + quad + b"/a"):
+                rec.mark("states", data, True)
+                scan_case(rec, scanner, data, 2, {"kind": "scan", "registry": "fixture", "data": data, "depth": 2}, len(data))
+        rec.sample({"family": "quad", "first_octet": first, "last": data})
     elif kind == "chr":
         _, i, n = unit
         fn = _resolve("chr:find_chr")
@@ -340,6 +355,7 @@ def pe_data(w):
     return w["pre"] + pegen.mkpe(nsec=nsec, ptr=ptr, size=size, total=0x400, optsize=optsize, lfanew=lfanew)[: w["cut"]]
 
 
+QUAD_OCTETS = [b"0", b"1", b"9", b"08", b"09", b"008", b"010", b"089", b"0377", b"0400", b"255", b"256", b"0x1", b"0x", b"1e1", b"00"]
 BYTE_ELEMS = [b"0", b"255", b"256", b"999", b"0x41", b"0xfg", b" 7", b"0X41", b"0x", b"00", b"1e1"]
 
 
